@@ -635,12 +635,15 @@ func c29EntryPoints(c *verifmc.Check) {
 // accepted node that is neither the oldest nor the newest nor the removal
 // candidate of that instant.
 func c29IntraDay(c *verifmc.Check) {
-	days := verifmc.Pick(c, []int{1, 2, 3, 7, 30, 200}, []int{1, 2, 3, 4, 5, 6, 7, 8, 9, 10, 11, 12, 13, 14, 15, 16, 17, 18, 19, 20, 21, 22, 23, 24, 30, 47, 48, 49, 200, 364, 365, 3650})
+	days := verifmc.Pick(c, []int{1, 2, 200}, []int{1, 2, 3, 4, 5, 6, 7, 8, 9, 10, 11, 12, 13, 14, 15, 16, 17, 18, 19, 20, 21, 22, 23, 24, 30, 47, 48, 49, 200, 364, 365, 3650})
 	kinds := []string{"remove@14:00", "accept@15:00", "remove@14:00+accept@15:00"}
 	type job struct{ n, pat, kind, day int }
 	var jobs []job
 	for n := 7; n <= 50; n++ {
 		for pat := 0; pat < 2; pat++ {
+			if pat == 0 && !c.Thorough() && n > 12 && n < 50 {
+				continue // quick: the all-equal (genesis) pattern only for the small sizes and the cap
+			}
 			for kind := 0; kind < 3; kind++ {
 				if kind != 1 && n < 8 {
 					continue // the removal must leave the minimum of 7 accepted nodes
@@ -687,8 +690,8 @@ func c29IntraDay(c *verifmc.Check) {
 			return
 		}
 		instants := []uint64{
-			d0 + 3*c29Hour, d0 + 13*c29Hour + 30*uint64(time.Minute), d0 + 14*c29Hour, d0 + 14*c29Hour + 1, d0 + 14*c29Hour + 30*uint64(time.Minute),
-			d0 + 15*c29Hour, d0 + 15*c29Hour + 1, d0 + 15*c29Hour + 30*uint64(time.Minute), d0 + 21*c29Hour,
+			d0 + 3*c29Hour, d0 + 13*c29Hour + 30*uint64(time.Minute), d0 + 14*c29Hour, d0 + 14*c29Hour + 1,
+			d0 + 15*c29Hour, d0 + 15*c29Hour + 1, d0 + 21*c29Hour,
 		}
 		type ans struct {
 			h crypto.Hash
